@@ -1,0 +1,47 @@
+//go:build verif
+// +build verif
+
+package verifapi
+
+import (
+	"gopkg.in/src-d/hercules.v10/internal/burndown"
+	"gopkg.in/src-d/hercules.v10/internal/rbtree"
+)
+
+// rbtree re-exports.
+type (
+	RBTree                 = rbtree.RBTree
+	Allocator              = rbtree.Allocator
+	Item                   = rbtree.Item
+	Iterator               = rbtree.Iterator
+	VerifNode              = rbtree.VerifNode
+	VerifAllocatorSnapshot = rbtree.VerifAllocatorSnapshot
+	VerifTreeHeader        = rbtree.VerifTreeHeader
+)
+
+// rbtree constructors and helpers.
+var (
+	NewRBTree             = rbtree.NewRBTree
+	NewAllocator          = rbtree.NewAllocator
+	CompressUInt32Slice   = rbtree.CompressUInt32Slice
+	DecompressUInt32Slice = rbtree.DecompressUInt32Slice
+)
+
+// burndown re-exports.
+type (
+	File    = burndown.File
+	Updater = burndown.Updater
+)
+
+// burndown constructors and constants.
+var (
+	NewFile         = burndown.NewFile
+	NewFileFromTree = burndown.NewFileFromTree
+)
+
+// Tracker constants.
+const (
+	TreeEnd         = burndown.TreeEnd
+	TreeMaxBinPower = burndown.TreeMaxBinPower
+	TreeMergeMark   = burndown.TreeMergeMark
+)
